@@ -646,8 +646,13 @@ const OPEN_FRAGS: &[&str] = &[
 pub fn macro_free_statement(r: &mut Rng) -> String {
     let n = r.range(1, 14);
     let mut s = String::new();
+    let look = soup::lookalikes();
     for _ in 0..n {
-        s.push_str(r.pick(OPEN_FRAGS));
+        if r.chance(1, 25) {
+            s.push_str(&look[r.below(look.len())]);
+        } else {
+            s.push_str(r.pick(OPEN_FRAGS));
+        }
         if r.chance(1, 3) {
             s.push(' ');
         }
